@@ -490,11 +490,17 @@ Theorem C12_timedelta_hash_refuted :
   obs Ysig0 false (va (ATd 5000000)) (va (ATd 5000000)) = (None, YEmpty).
 Proof. exact y_timedelta_hash_refuted. Qed.
 Print Assumptions C12_timedelta_hash_refuted.
-Theorem C12_truncate_date_timedelta_refuted :
-  obs (Ytrunc UHour) false (d1 ks (va (ADate 2024 1 1))) (d1 ks (va (ADate 2024 1 1))) = (Some true, YRaised EType) /\
-  obs (Ytrunc UHour) false (d1 ks (va (ATd 5000000))) (d1 ks (va (ATd 5000000))) = (Some true, YRaised EAttr).
-Proof. exact y_truncate_date_timedelta_refuted. Qed.
-Print Assumptions C12_truncate_date_timedelta_refuted.
+(* truncate_datetime on date / timedelta values, as FIXED in /repo 1c8f0f8 (it was finding
+   C12-truncate-date-timedelta-raises: DeepDiff raised TypeError / AttributeError): the former witness
+   on the side of the property *)
+Theorem C12_truncate_date_timedelta_fixed :
+  obs (Ytrunc UHour) false (d1 ks (va (ADate 2024 1 1))) (d1 ks (va (ADate 2024 1 1))) = (Some true, YEmpty) /\
+  obs (Ytrunc UHour) false (d1 ks (va (ATd 5000000))) (d1 ks (va (ATd 5000000))) = (Some true, YEmpty) /\
+  obs (Ytrunc UDay) false (d1 ks (va (ADate 2024 1 1))) (d1 ks (va (ADate 2024 1 2))) = (Some false, YNonEmpty) /\
+  obs (Ytrunc UMinute) true (d1 ks (va (ATd 5000000))) (d1 ks (va (ATd 6000000))) = (Some false, YNonEmpty) /\
+  obs (Ytrunc_numty UMinute) false (va (ATime 37230000000)) (va (AInt 9)) = (Some false, YNonEmpty).
+Proof. exact y_truncate_date_timedelta_fixed. Qed.
+Print Assumptions C12_truncate_date_timedelta_fixed.
 Theorem C12_date_key_cleaning_refuted :
   obs Ycase_sig3 false (d1 (ADate 2024 1 1) (va (AInt 1))) (d1 (ADate 2024 1 1) (va (AInt 1))) = (Some true, YRaised EType).
 Proof. exact y_date_key_cleaning_refuted. Qed.
